@@ -58,23 +58,15 @@ func replaceMatchers(selectors matcherHeap, expr *parser.Expr) {
 				continue
 			}
 
-			// Make a copy of the original selectors to avoid modifying them while
-			// trimming filters.
-			filters := make([]*labels.Matcher, len(e.LabelMatchers))
-			copy(filters, e.LabelMatchers)
-
-			// All replacements are done on metrics name only,
-			// so we can drop the explicit metric name selector.
-			filters = dropMatcher(labels.MetricName, filters)
-
-			// Drop filters which are already present as matchers in the replacement selector.
-			for _, s := range replacement {
-				for _, f := range filters {
-					if s.Name == f.Name && s.Value == f.Value && s.Type == f.Type {
-						filters = dropMatcher(f.Name, filters)
-					}
+			// The matchers which are not part of the replacement selector
+			// have to be applied as filters on the selected series.
+			filters := make([]*labels.Matcher, 0, len(e.LabelMatchers))
+			for _, f := range e.LabelMatchers {
+				if !containsMatcher(replacement, f) {
+					filters = append(filters, f)
 				}
 			}
+
 			e.LabelMatchers = replacement
 			*node = &FilteredSelector{
 				Filters:        filters,
@@ -85,32 +77,19 @@ func replaceMatchers(selectors matcherHeap, expr *parser.Expr) {
 	})
 }
 
-func dropMatcher(matcherName string, originalMatchers []*labels.Matcher) []*labels.Matcher {
-	i := 0
-	for i < len(originalMatchers) {
-		l := originalMatchers[i]
-		if l.Name == matcherName {
-			originalMatchers = append(originalMatchers[:i], originalMatchers[i+1:]...)
-		} else {
-			i++
+func sameMatcher(a, b *labels.Matcher) bool {
+	return a.Name == b.Name && a.Type == b.Type && a.Value == b.Value
+}
+
+func containsMatcher(matchers []*labels.Matcher, matcher *labels.Matcher) bool {
+	for _, m := range matchers {
+		if sameMatcher(m, matcher) {
+			return true
 		}
 	}
-	return originalMatchers
+	return false
 }
 
-func matcherToMap(matchers []*labels.Matcher) map[string]*labels.Matcher {
-	r := make(map[string]*labels.Matcher, len(matchers))
-	for i := 0; i < len(matchers); i++ {
-		r[matchers[i].Name] = matchers[i]
-	}
-	return r
-}
-
-// matcherHeap is a set of the most selective label matchers
-// for each metrics discovered in a PromQL expression.
-// The selectivity of a matcher is defined by how many series are
-// matched by it. Since matchers in PromQL are open, selectors
-// with the least amount of matchers are typically the most selective ones.
 type matcherHeap map[string][]*labels.Matcher
 
 func (m matcherHeap) add(metricName string, lessSelective []*labels.Matcher) {
@@ -133,22 +112,23 @@ func (m matcherHeap) findReplacement(metricName string, matcher []*labels.Matche
 		return nil, false
 	}
 
-	matcherSet := matcherToMap(matcher)
-	topSet := matcherToMap(top)
-	for k, v := range topSet {
-		m, ok := matcherSet[k]
-		if !ok {
-			return nil, false
-		}
-
-		equals := v.Name == m.Name && v.Type == m.Type && v.Value == m.Value
-		if !equals {
+	// The top selector can only be used if each of its matchers is also
+	// a matcher of the input selector.
+	for _, t := range top {
+		if !containsMatcher(matcher, t) {
 			return nil, false
 		}
 	}
 
 	// The top matcher and input matcher are equal. No replacement needed.
-	if len(topSet) == len(matcherSet) {
+	equal := true
+	for _, m := range matcher {
+		if !containsMatcher(top, m) {
+			equal = false
+			break
+		}
+	}
+	if equal {
 		return nil, false
 	}
 
